@@ -24,7 +24,7 @@ import (
 
 type bKind int32
 
-type BUser struct {
+type User struct {
 	Id   int64
 	Name string
 }
@@ -37,7 +37,7 @@ type bUserKey struct {
 	Id int64
 }
 
-type BAdmin struct {
+type Admin struct {
 	Id    int64
 	Level int64
 }
@@ -46,7 +46,7 @@ type bAdminKey struct {
 	Id int64
 }
 
-type BGuest struct {
+type Guest struct {
 	Token string
 }
 
@@ -94,17 +94,17 @@ var everyoneTypes = func() map[bool]reflect.Type {
 	func() {
 		type Everyone struct {
 			schemabuilder.Union
-			*BUser
-			*BGuest
+			*User
+			*Guest
 		}
 		m[false] = reflect.TypeOf(Everyone{})
 	}()
 	func() {
 		type Everyone struct {
 			schemabuilder.Union
-			*BUser
-			*BGuest
-			*BAdmin
+			*User
+			*Guest
+			*Admin
 		}
 		m[true] = reflect.TypeOf(Everyone{})
 	}()
@@ -141,9 +141,9 @@ var (
 	tString    = reflect.TypeOf("")
 	tBool      = reflect.TypeOf(false)
 	tKind      = reflect.TypeOf(bKind(0))
-	tUserPtr   = reflect.TypeOf(&BUser{})
+	tUserPtr   = reflect.TypeOf(&User{})
 	tPUserPtr  = reflect.TypeOf(&bProfileUser{})
-	tAdminPtr  = reflect.TypeOf(&BAdmin{})
+	tAdminPtr  = reflect.TypeOf(&Admin{})
 	tFloat64   = reflect.TypeOf(float64(0))
 	bTemplates = []string{"users", "profiles", "admins"}
 )
@@ -186,10 +186,10 @@ func buildB(template, svcName string, mask uint) *schemabuilder.Schema {
 			vals = append(vals, "C")
 		}
 		s.Enum(bKind(0), kindMap(vals...))
-		user := s.Object("User", BUser{}, schemabuilder.FetchObjectFromKeys(func(args struct{ Keys []bUserKey }) []*BUser { return nil }))
+		user := s.Object("User", User{}, schemabuilder.FetchObjectFromKeys(func(args struct{ Keys []bUserKey }) []*User { return nil }))
 		user.Key("id")
-		s.Object("Guest", BGuest{})
-		s.Object("Admin", BAdmin{}, schemabuilder.FetchObjectFromKeys(func(args struct{ Keys []bAdminKey }) []*BAdmin { return nil })).Key("id")
+		s.Object("Guest", Guest{})
+		s.Object("Admin", Admin{}, schemabuilder.FetchObjectFromKeys(func(args struct{ Keys []bAdminKey }) []*Admin { return nil })).Key("id")
 
 		uargs := []bArg{{"Id", tInt64}}
 		if bit(mask, 0) {
@@ -203,7 +203,7 @@ func buildB(template, svcName string, mask uint) *schemabuilder.Schema {
 		}
 		ft := filterVariant(bit(mask, 3), false)
 		if bit(mask, 8) {
-			q.FieldFunc("search", dynFunc(nil, []bArg{{"Filter", reflect.PtrTo(ft)}}, reflect.SliceOf(reflect.TypeOf(BUser{}))))
+			q.FieldFunc("search", dynFunc(nil, []bArg{{"Filter", reflect.PtrTo(ft)}}, reflect.SliceOf(reflect.TypeOf(User{}))))
 		} else {
 			q.FieldFunc("search", dynFunc(nil, []bArg{{"Filter", reflect.PtrTo(ft)}}, reflect.SliceOf(tUserPtr)))
 		}
@@ -257,7 +257,7 @@ func buildB(template, svcName string, mask uint) *schemabuilder.Schema {
 			vals = append(vals, "A")
 		}
 		s.Enum(bKind(0), kindMap(vals...))
-		admin := s.Object("Admin", BAdmin{}, schemabuilder.FetchObjectFromKeys(func(args struct{ Keys []bAdminKey }) []*BAdmin { return nil }))
+		admin := s.Object("Admin", Admin{}, schemabuilder.FetchObjectFromKeys(func(args struct{ Keys []bAdminKey }) []*Admin { return nil }))
 		admin.Key("id")
 		if bit(mask, 0) {
 			admin.FieldFunc("clearance", dynFunc(tAdminPtr, []bArg{{"Kind", reflect.PtrTo(tKind)}}, tString))
@@ -270,7 +270,7 @@ func buildB(template, svcName string, mask uint) *schemabuilder.Schema {
 			aargs = append(aargs, bArg{"Filter", reflect.PtrTo(ft)})
 		}
 		if bit(mask, 4) {
-			q.FieldFunc("admins", dynFunc(nil, aargs, reflect.SliceOf(reflect.TypeOf(BAdmin{}))))
+			q.FieldFunc("admins", dynFunc(nil, aargs, reflect.SliceOf(reflect.TypeOf(Admin{}))))
 		} else {
 			q.FieldFunc("admins", dynFunc(nil, aargs, reflect.SliceOf(tAdminPtr)))
 		}
